@@ -1,12 +1,13 @@
 import HermesModel.Proto
 import HermesModel.Water
+import HermesModel.Substeps
 open Hermes Hermes.Proto
 
 namespace Hermes.Driver
 
 /-- `water.step N first draidep outn  dz wdt fluss0 grw draifak gwauf evTail q0prev  wg[N] tp[N] w[N]
 wmin[N] ev[N] nfk[N] caps[21]` -/
-def waterStep (toks : List String) : Option String := do
+def waterStep (full : Bool) (toks : List String) : Option String := do
   let (n, r) ← popNat toks
   let (first, r) ← popNat r
   let (draidep, r) ← popNat r
@@ -25,12 +26,28 @@ def waterStep (toks : List String) : Option String := do
                                 grw, draidep, draifak, outn, gwauf, q0prev }
     let o := Water.step i
     some (fmtFloats (o.wg1 ++ o.tp ++ o.ev ++ [o.evTail] ++ o.q1 ++
-      [o.qdrain, o.dSicker, o.dCapsum, o.dDraisum, o.dInfilt, o.dTrans]))
+      (if full then [o.qdrain, o.dSicker, o.dCapsum, o.dDraisum, o.dInfilt, o.dTrans] else [o.qdrain])))
+  | _ => none
+
+/-- `water.substeps N dz fluss0 regen w[N] wg0[N]` → `wdt steps` -/
+def waterSubsteps (toks : List String) : Option String := do
+  let (n, r) ← popNat toks
+  let (sc, r) ← popFloats 3 r
+  let (w, r) ← popFloats n r
+  let (wg, _) ← popFloats n r
+  match sc with
+  | [dz, fluss0, regen] =>
+    let o := Water.substeps ({ dz, fluss0, regen, w, wg } : Water.SubIn Float)
+    some (fmtFloats [o.1, Conv.ofNat o.2])
   | _ => none
 
 def waterOps (toks : List String) : String :=
   match toks with
-  | "water.step" :: rest => (waterStep rest).getD "bad-op"
+  | "water.step" :: rest => (waterStep true rest).getD "bad-op"
+  -- the same call without the accumulator increments (inside a run they are only observable as
+  -- differences of large running sums, which is checked separately with a magnitude-scaled tolerance)
+  | "water.stepr" :: rest => (waterStep false rest).getD "bad-op"
+  | "water.substeps" :: rest => (waterSubsteps rest).getD "bad-op"
   | _ => "bad-op"
 
 end Hermes.Driver
